@@ -485,22 +485,27 @@ func (z *zeroReader) Read(p []byte) (int, error) {
 // A file beyond 4 GiB: 4 GiB + 1 MiB + 5 zero bytes in 1 MiB chunks at width 2 - the store de-duplicates it
 // to a handful of blocks. Lengths below the root must not be truncated to 32 bits.
 func TestC01_R_Over4GiB(t *testing.T) {
-	n := int64(4)<<30 + 1<<20 + 5
+	over4GiB(t, int64(4)<<30+1<<20+5, 2)
+	// a subtree between 2 and 4 GiB (3000 chunks of 1 MiB under one node) next to a small one
+	over4GiB(t, int64(3000)<<20+1<<20+5, 3000)
+}
+
+func over4GiB(t *testing.T, n int64, w int) {
 	st := NewStore()
-	root, _, err := buildFileR(st.LinkSystem(), &zeroReader{n: n}, "size-1048576", 2)
+	root, _, err := buildFileR(st.LinkSystem(), &zeroReader{n: n}, "size-1048576", w)
 	if err != nil {
 		t.Fatal(err)
 	}
 	bi, err := st.Decode(root)
 	if err != nil || bi.UFS == nil || bi.UFS.GetFilesize() != uint64(n) {
-		t.Fatalf("C01 >4GiB: declared FileSize %v, want %d", bi.UFS.GetFilesize(), n)
+		t.Fatalf("C01 multi-GiB: declared FileSize %v, want %d", bi.UFS.GetFilesize(), n)
 	}
 	sum := uint64(0)
 	for _, b := range bi.UFS.Blocksizes {
 		sum += b
 	}
 	if sum != uint64(n) {
-		t.Fatalf("C01 >4GiB: root BlockSizes sum to %d, want %d", sum, n)
+		t.Fatalf("C01 multi-GiB: root BlockSizes sum to %d, want %d", sum, n)
 	}
 	rn, err := c01Open(st, root, "Reify")
 	if err != nil {
@@ -508,7 +513,7 @@ func TestC01_R_Over4GiB(t *testing.T) {
 	}
 	rs, _ := rn.(datamodel.LargeBytesNode).AsLargeBytes()
 	if end, err := rs.Seek(0, io.SeekEnd); err != nil || end != n {
-		t.Fatalf("C01 >4GiB: Seek(0,End) = %d,%v want %d", end, err, n)
+		t.Fatalf("C01 multi-GiB: Seek(0,End) = %d,%v want %d", end, err, n)
 	}
 	// the last 1 MiB + 5 bytes read back as zeros and then EOF
 	if _, err := rs.Seek(n-(1<<20)-5, io.SeekStart); err != nil {
@@ -516,7 +521,7 @@ func TestC01_R_Over4GiB(t *testing.T) {
 	}
 	tail, err := io.ReadAll(rs)
 	if err != nil || len(tail) != 1<<20+5 {
-		t.Fatalf("C01 >4GiB: tail read %d bytes, err %v", len(tail), err)
+		t.Fatalf("C01 multi-GiB: tail read %d bytes, err %v", len(tail), err)
 	}
 }
 
